@@ -13,6 +13,7 @@ use report::*;
 fn prop_by_id(id: &str) -> Option<Box<dyn Prop>> {
     match id {
         "C01" => Some(Box::new(props::c01::C01)),
+        "C19" => Some(Box::new(props::c19::C19)),
         "C18" => Some(Box::new(props::c18::C18)),
         _ => None,
     }
